@@ -32,10 +32,12 @@
   `refactor_eq_fresh`, carried through `kktsystem.update/solve`, and the "`0·stale` is the same
   zero" side condition above) is not carried by a theorem.
 
+  REPAIRED in /repo 1706c1f: reason 1 is gone (`solve_constant_rhs` / `solve_initial_point` now form `−q` with
+  `scalarop_from`, `symv` fills with zero when `b == 0`); reason 2 is unchanged.
+
   ADDED LATER (`Props/C05Idem.lean`, `Lemmas/SolverStale*.lean`): the irrelevance of ALL the other
-  mutable components is now a theorem (`C05.full_solve_reads_only`, `full_solve_idempotent_finite_partial`),
-  with exactly the side conditions 1. (as "`0·stale` gives the same zeros") and 2. above and one
-  remaining hypothesis about `KKTSolver::update` (`QW`).
+  mutable components is now a theorem (`C05.full_solve_reads_only`, `full_solve_idempotent_finite`),
+  with exactly the side condition 2. above and one remaining hypothesis about `KKTSolver::update` (`QW`).
 -/
 import ClarabelProofs.Lemmas.SolverModelIdem
 import ClarabelProofs.Lemmas.SolverModelExample
